@@ -274,9 +274,9 @@ theorem slabComponent_mono (o d tminA tmaxA tminB tmaxB loA hiA loB hiB : ℝ)
       min_le_min h2 hH
     exact ⟨fun hr => le_trans hmax (le_trans hr hmin), fun _ => ⟨hmin, hmax⟩⟩
 
-/-- `slab_mono`: the slab test is monotone in the box — every ray, zero direction components included -/
-theorem slab_mono {A B : Box} (h : BoxSub A B) (o d : P3) (mn mx : ℝ)
-    (hA : intersectsRayInRange A o d mn mx = true) : intersectsRayInRange B o d mn mx = true := by
+/-- the slab test is monotone in the box AND in the range — every ray, zero direction components included -/
+theorem slab_mono_range {A B : Box} (h : BoxSub A B) (o d : P3) (mn mx mnB mxB : ℝ) (hr1 : mnB ≤ mn) (hr2 : mx ≤ mxB)
+    (hA : intersectsRayInRange A o d mn mx = true) : intersectsRayInRange B o d mnB mxB = true := by
   obtain ⟨h1, h2⟩ := h
   rw [aabb_contains_iff] at h1 h2
   obtain ⟨a1, a2, a3, a4, a5, a6⟩ := h1
@@ -287,11 +287,11 @@ theorem slab_mono {A B : Box} (h : BoxSub A B) (o d : P3) (mn mx : ℝ)
   cases hax : (slabComponent o.x d.x mn mx (A.Min.x - kEps) (A.Max.x + kEps)).1 with
   | true => simp [hax] at hA
   | false =>
-    obtain ⟨x3, xr⟩ := slabComponent_mono o.x d.x mn mx mn mx (A.Min.x - kEps) (A.Max.x + kEps) (B.Min.x - kEps) (B.Max.x + kEps)
-      le_rfl le_rfl (by linarith) (by linarith) (by linarith) (by linarith)
+    obtain ⟨x3, xr⟩ := slabComponent_mono o.x d.x mn mx mnB mxB (A.Min.x - kEps) (A.Max.x + kEps) (B.Min.x - kEps) (B.Max.x + kEps)
+      hr1 hr2 (by linarith) (by linarith) (by linarith) (by linarith)
     obtain ⟨x1, x2⟩ := xr hax
-    have hbx : (slabComponent o.x d.x mn mx (B.Min.x - kEps) (B.Max.x + kEps)).1 = false := by
-      cases hb : (slabComponent o.x d.x mn mx (B.Min.x - kEps) (B.Max.x + kEps)).1 with
+    have hbx : (slabComponent o.x d.x mnB mxB (B.Min.x - kEps) (B.Max.x + kEps)).1 = false := by
+      cases hb : (slabComponent o.x d.x mnB mxB (B.Min.x - kEps) (B.Max.x + kEps)).1 with
       | false => rfl
       | true => rw [x3 hb] at hax; cases hax
     simp only [hax, hbx, Bool.false_eq_true, if_false] at hA ⊢
@@ -303,10 +303,10 @@ theorem slab_mono {A B : Box} (h : BoxSub A B) (o d : P3) (mn mx : ℝ)
       obtain ⟨y3, yr⟩ := slabComponent_mono o.y d.y _ _ _ _ (A.Min.y - kEps) (A.Max.y + kEps) (B.Min.y - kEps) (B.Max.y + kEps)
         x1 x2 (by linarith) (by linarith) (by linarith) (by linarith)
       obtain ⟨y1, y2⟩ := yr hay
-      have hby : (slabComponent o.y d.y (slabComponent o.x d.x mn mx (B.Min.x - kEps) (B.Max.x + kEps)).2.1
-          (slabComponent o.x d.x mn mx (B.Min.x - kEps) (B.Max.x + kEps)).2.2 (B.Min.y - kEps) (B.Max.y + kEps)).1 = false := by
-        cases hb : (slabComponent o.y d.y (slabComponent o.x d.x mn mx (B.Min.x - kEps) (B.Max.x + kEps)).2.1
-          (slabComponent o.x d.x mn mx (B.Min.x - kEps) (B.Max.x + kEps)).2.2 (B.Min.y - kEps) (B.Max.y + kEps)).1 with
+      have hby : (slabComponent o.y d.y (slabComponent o.x d.x mnB mxB (B.Min.x - kEps) (B.Max.x + kEps)).2.1
+          (slabComponent o.x d.x mnB mxB (B.Min.x - kEps) (B.Max.x + kEps)).2.2 (B.Min.y - kEps) (B.Max.y + kEps)).1 = false := by
+        cases hb : (slabComponent o.y d.y (slabComponent o.x d.x mnB mxB (B.Min.x - kEps) (B.Max.x + kEps)).2.1
+          (slabComponent o.x d.x mnB mxB (B.Min.x - kEps) (B.Max.x + kEps)).2.2 (B.Min.y - kEps) (B.Max.y + kEps)).1 with
         | false => rfl
         | true => rw [y3 hb] at hay; cases hay
       simp only [hay, hby, Bool.false_eq_true, if_false] at hA ⊢
@@ -314,13 +314,165 @@ theorem slab_mono {A B : Box} (h : BoxSub A B) (o d : P3) (mn mx : ℝ)
       obtain ⟨z3, _⟩ := slabComponent_mono o.z d.z _ _ _ _ (A.Min.z - kEps) (A.Max.z + kEps) (B.Min.z - kEps) (B.Max.z + kEps)
         y1 y2 (by linarith) (by linarith) (by linarith) (by linarith)
       cases hbz : (slabComponent o.z d.z
-          (slabComponent o.y d.y (slabComponent o.x d.x mn mx (B.Min.x - kEps) (B.Max.x + kEps)).2.1
-            (slabComponent o.x d.x mn mx (B.Min.x - kEps) (B.Max.x + kEps)).2.2 (B.Min.y - kEps) (B.Max.y + kEps)).2.1
-          (slabComponent o.y d.y (slabComponent o.x d.x mn mx (B.Min.x - kEps) (B.Max.x + kEps)).2.1
-            (slabComponent o.x d.x mn mx (B.Min.x - kEps) (B.Max.x + kEps)).2.2 (B.Min.y - kEps) (B.Max.y + kEps)).2.2
+          (slabComponent o.y d.y (slabComponent o.x d.x mnB mxB (B.Min.x - kEps) (B.Max.x + kEps)).2.1
+            (slabComponent o.x d.x mnB mxB (B.Min.x - kEps) (B.Max.x + kEps)).2.2 (B.Min.y - kEps) (B.Max.y + kEps)).2.1
+          (slabComponent o.y d.y (slabComponent o.x d.x mnB mxB (B.Min.x - kEps) (B.Max.x + kEps)).2.1
+            (slabComponent o.x d.x mnB mxB (B.Min.x - kEps) (B.Max.x + kEps)).2.2 (B.Min.y - kEps) (B.Max.y + kEps)).2.2
           (B.Min.z - kEps) (B.Max.z + kEps)).1 with
       | false => simp
       | true => have := z3 hbz; simp [this] at hA
+
+
+/-- the three-axis slab test over an arbitrary per-axis step `comp` -/
+noncomputable def slab3 (comp : ℝ → ℝ → ℝ → ℝ → ℝ → ℝ → Bool × ℝ × ℝ) (b : Box) (o d : P3) (mn mx : ℝ) : Bool :=
+  let rx := comp o.x d.x mn mx (b.Min.x - kEps) (b.Max.x + kEps)
+  if rx.1 then false else
+  let ry := comp o.y d.y rx.2.1 rx.2.2 (b.Min.y - kEps) (b.Max.y + kEps)
+  if ry.1 then false else
+  let rz := comp o.z d.z ry.2.1 ry.2.2 (b.Min.z - kEps) (b.Max.z + kEps)
+  if rz.1 then false else true
+
+/-- the per-axis monotonicity property (`slabComponent_mono`) -/
+def AxisMono (comp : ℝ → ℝ → ℝ → ℝ → ℝ → ℝ → Bool × ℝ × ℝ) : Prop :=
+  ∀ (o d tminA tmaxA tminB tmaxB loA hiA loB hiB : ℝ), tminB ≤ tminA → tmaxA ≤ tmaxB → loB ≤ loA → hiA ≤ hiB →
+    loB ≤ hiA → loA ≤ hiB →
+    ((comp o d tminB tmaxB loB hiB).1 = true → (comp o d tminA tmaxA loA hiA).1 = true) ∧
+    ((comp o d tminA tmaxA loA hiA).1 = false →
+      (comp o d tminB tmaxB loB hiB).2.1 ≤ (comp o d tminA tmaxA loA hiA).2.1 ∧
+      (comp o d tminA tmaxA loA hiA).2.2 ≤ (comp o d tminB tmaxB loB hiB).2.2)
+
+/-- any three-axis slab test whose per-axis step is monotone is monotone in the box and in the range -/
+theorem slab3_mono (comp : ℝ → ℝ → ℝ → ℝ → ℝ → ℝ → Bool × ℝ × ℝ) (slabComponent_mono : AxisMono comp)
+    {A B : Box} (h : BoxSub A B) (o d : P3) (mn mx mnB mxB : ℝ) (hr1 : mnB ≤ mn) (hr2 : mx ≤ mxB)
+    (hA : slab3 comp A o d mn mx = true) : slab3 comp B o d mnB mxB = true := by
+  obtain ⟨h1, h2⟩ := h
+  rw [aabb_contains_iff] at h1 h2
+  obtain ⟨a1, a2, a3, a4, a5, a6⟩ := h1
+  obtain ⟨b1, b2, b3, b4, b5, b6⟩ := h2
+  have keps : (0 : ℝ) ≤ kEps := by simp [kEps]
+  simp only [slab3] at hA ⊢
+  -- x
+  cases hax : (comp o.x d.x mn mx (A.Min.x - kEps) (A.Max.x + kEps)).1 with
+  | true => simp [hax] at hA
+  | false =>
+    obtain ⟨x3, xr⟩ := slabComponent_mono o.x d.x mn mx mnB mxB (A.Min.x - kEps) (A.Max.x + kEps) (B.Min.x - kEps) (B.Max.x + kEps)
+      hr1 hr2 (by linarith) (by linarith) (by linarith) (by linarith)
+    obtain ⟨x1, x2⟩ := xr hax
+    have hbx : (comp o.x d.x mnB mxB (B.Min.x - kEps) (B.Max.x + kEps)).1 = false := by
+      cases hb : (comp o.x d.x mnB mxB (B.Min.x - kEps) (B.Max.x + kEps)).1 with
+      | false => rfl
+      | true => rw [x3 hb] at hax; cases hax
+    simp only [hax, hbx, Bool.false_eq_true, if_false] at hA ⊢
+    -- y
+    cases hay : (comp o.y d.y (comp o.x d.x mn mx (A.Min.x - kEps) (A.Max.x + kEps)).2.1
+        (comp o.x d.x mn mx (A.Min.x - kEps) (A.Max.x + kEps)).2.2 (A.Min.y - kEps) (A.Max.y + kEps)).1 with
+    | true => simp [hay] at hA
+    | false =>
+      obtain ⟨y3, yr⟩ := slabComponent_mono o.y d.y _ _ _ _ (A.Min.y - kEps) (A.Max.y + kEps) (B.Min.y - kEps) (B.Max.y + kEps)
+        x1 x2 (by linarith) (by linarith) (by linarith) (by linarith)
+      obtain ⟨y1, y2⟩ := yr hay
+      have hby : (comp o.y d.y (comp o.x d.x mnB mxB (B.Min.x - kEps) (B.Max.x + kEps)).2.1
+          (comp o.x d.x mnB mxB (B.Min.x - kEps) (B.Max.x + kEps)).2.2 (B.Min.y - kEps) (B.Max.y + kEps)).1 = false := by
+        cases hb : (comp o.y d.y (comp o.x d.x mnB mxB (B.Min.x - kEps) (B.Max.x + kEps)).2.1
+          (comp o.x d.x mnB mxB (B.Min.x - kEps) (B.Max.x + kEps)).2.2 (B.Min.y - kEps) (B.Max.y + kEps)).1 with
+        | false => rfl
+        | true => rw [y3 hb] at hay; cases hay
+      simp only [hay, hby, Bool.false_eq_true, if_false] at hA ⊢
+      -- z
+      obtain ⟨z3, _⟩ := slabComponent_mono o.z d.z _ _ _ _ (A.Min.z - kEps) (A.Max.z + kEps) (B.Min.z - kEps) (B.Max.z + kEps)
+        y1 y2 (by linarith) (by linarith) (by linarith) (by linarith)
+      cases hbz : (comp o.z d.z
+          (comp o.y d.y (comp o.x d.x mnB mxB (B.Min.x - kEps) (B.Max.x + kEps)).2.1
+            (comp o.x d.x mnB mxB (B.Min.x - kEps) (B.Max.x + kEps)).2.2 (B.Min.y - kEps) (B.Max.y + kEps)).2.1
+          (comp o.y d.y (comp o.x d.x mnB mxB (B.Min.x - kEps) (B.Max.x + kEps)).2.1
+            (comp o.x d.x mnB mxB (B.Min.x - kEps) (B.Max.x + kEps)).2.2 (B.Min.y - kEps) (B.Max.y + kEps)).2.2
+          (B.Min.z - kEps) (B.Max.z + kEps)).1 with
+      | false => simp
+      | true => have := z3 hbz; simp [this] at hA
+
+
+
+/-- `slab_mono`: the slab test is monotone in the box — every ray, zero direction components included -/
+theorem slab_mono {A B : Box} (h : BoxSub A B) (o d : P3) (mn mx : ℝ)
+    (hA : intersectsRayInRange A o d mn mx = true) : intersectsRayInRange B o d mn mx = true :=
+  slab_mono_range h o d mn mx mn mx le_rfl le_rfl hA
+
+
+/-! ### the other resolution of the on-face corner: `+0` (closed slab) -/
+
+/-- per-axis step with a zero direction component read as IEEE `+0`: origin on the closed widened slab (faces
+    included: `0·(+Inf) = NaN` compares false everywhere, the range is left alone) ⇒ unchanged, else reject.
+    (`slabComponent` itself is the `-0` reading on the faces: reject.) -/
+noncomputable def slabComponentPos (o d tmin tmax lo hi : ℝ) : Bool × ℝ × ℝ :=
+  if d = 0 then (if lo ≤ o ∧ o ≤ hi then (decide (tmax ≤ tmin), tmin, tmax) else (true, tmin, tmax))
+  else slabArith o d tmin tmax lo hi
+
+theorem slabComponent_axisMono : AxisMono slabComponent :=
+  fun o d tminA tmaxA tminB tmaxB loA hiA loB hiB h1 h2 h3 h4 h5 h6 =>
+    slabComponent_mono o d tminA tmaxA tminB tmaxB loA hiA loB hiB h1 h2 h3 h4 h5 h6
+
+theorem slabComponentPos_axisMono : AxisMono slabComponentPos := by
+  intro o d tminA tmaxA tminB tmaxB loA hiA loB hiB h1 h2 h3 h4 h5 h6
+  by_cases hd : d = 0
+  · subst hd
+    simp only [slabComponentPos, if_true]
+    by_cases hA : loA ≤ o ∧ o ≤ hiA
+    · have hB : loB ≤ o ∧ o ≤ hiB := ⟨le_trans h3 hA.1, le_trans hA.2 h4⟩
+      simp only [hA, hB, and_self, if_true, decide_eq_true_eq]
+      exact ⟨fun hr => le_trans h2 (le_trans hr h1), fun _ => ⟨h1, h2⟩⟩
+    · simp only [hA, if_false]
+      exact ⟨fun _ => trivial, fun hf => by cases hf⟩
+  · have e1 := slabComponent_ne o d tminA tmaxA loA hiA hd
+    have e2 := slabComponent_ne o d tminB tmaxB loB hiB hd
+    have := slabComponent_mono o d tminA tmaxA tminB tmaxB loA hiA loB hiB h1 h2 h3 h4 h5 h6
+    rw [e1, e2] at this
+    simpa [slabComponentPos, hd] using this
+
+/-- `IntersectsRayInRange` with zero direction components read as `+0` -/
+noncomputable def intersectsRayInRangePos (b : Box) (o d : P3) (mn mx : ℝ) : Bool := slab3 slabComponentPos b o d mn mx
+
+theorem intersectsRayInRange_eq_slab3 (b : Box) (o d : P3) (mn mx : ℝ) :
+    intersectsRayInRange b o d mn mx = slab3 slabComponent b o d mn mx := rfl
+
+/-- the `+0` reading is monotone in the box and in the range too -/
+theorem slabPos_mono_range {A B : Box} (h : BoxSub A B) (o d : P3) (mn mx mnB mxB : ℝ) (hr1 : mnB ≤ mn) (hr2 : mx ≤ mxB)
+    (hA : intersectsRayInRangePos A o d mn mx = true) : intersectsRayInRangePos B o d mnB mxB = true :=
+  slab3_mono slabComponentPos slabComponentPos_axisMono h o d mn mx mnB mxB hr1 hr2 hA
+
+/-- the two readings differ only on the faces: whatever the `-0` reading accepts, the `+0` reading accepts -/
+theorem slabPos_of_slab (b : Box) (o d : P3) (mn mx : ℝ) (h : intersectsRayInRange b o d mn mx = true) :
+    intersectsRayInRangePos b o d mn mx = true := by
+  have key : ∀ o d tmin tmax lo hi : ℝ, (slabComponent o d tmin tmax lo hi).1 = false →
+      slabComponentPos o d tmin tmax lo hi = slabComponent o d tmin tmax lo hi := by
+    intro o d tmin tmax lo hi hf
+    by_cases hd : d = 0
+    · subst hd
+      by_cases hin : lo < o ∧ o < hi
+      · rw [slabComponent_zero_in _ _ _ _ _ hin.1 hin.2]
+        simp [slabComponentPos, hin.1.le, hin.2.le]
+      · rw [slabComponent_zero_out _ _ _ _ _ hin] at hf; cases hf
+    · simp [slabComponentPos, hd, slabComponent_ne _ _ _ _ _ _ hd]
+  simp only [intersectsRayInRangePos, slab3]
+  simp only [intersectsRayInRange] at h
+  cases hx : (slabComponent o.x d.x mn mx (b.Min.x - kEps) (b.Max.x + kEps)).1 with
+  | true => simp [hx] at h
+  | false =>
+    rw [key _ _ _ _ _ _ hx]
+    simp only [hx, Bool.false_eq_true, if_false] at h ⊢
+    cases hy : (slabComponent o.y d.y (slabComponent o.x d.x mn mx (b.Min.x - kEps) (b.Max.x + kEps)).2.1
+        (slabComponent o.x d.x mn mx (b.Min.x - kEps) (b.Max.x + kEps)).2.2 (b.Min.y - kEps) (b.Max.y + kEps)).1 with
+    | true => simp [hy] at h
+    | false =>
+      rw [key _ _ _ _ _ _ hy]
+      simp only [hy, Bool.false_eq_true, if_false] at h ⊢
+      cases hz : (slabComponent o.z d.z
+          (slabComponent o.y d.y (slabComponent o.x d.x mn mx (b.Min.x - kEps) (b.Max.x + kEps)).2.1
+            (slabComponent o.x d.x mn mx (b.Min.x - kEps) (b.Max.x + kEps)).2.2 (b.Min.y - kEps) (b.Max.y + kEps)).2.1
+          (slabComponent o.y d.y (slabComponent o.x d.x mn mx (b.Min.x - kEps) (b.Max.x + kEps)).2.1
+            (slabComponent o.x d.x mn mx (b.Min.x - kEps) (b.Max.x + kEps)).2.2 (b.Min.y - kEps) (b.Max.y + kEps)).2.2
+          (b.Min.z - kEps) (b.Max.z + kEps)).1 with
+      | true => simp [hz] at h
+      | false => rw [key _ _ _ _ _ _ hz]; simp [hz]
 
 end Tree
 end PolyVerif
